@@ -10,3 +10,12 @@ open RawPanelVerif.C02
 #print axioms brightness_one_two_spec
 #print axioms dec_sound_partial
 #print axioms line_sound
+#print axioms text_total
+#print axioms dec_sound_nogfx
+#print axioms line_sound_nogfx
+#print axioms dec_sound_blank_image_counterexample
+#print axioms dec_sound
+#print axioms dec_sound_guard_exact
+#print axioms dec_sound_nb
+#print axioms gfx_part_step
+#print axioms gfx_line
